@@ -74,6 +74,7 @@ Inductive case :=
 | CAnnounce (r : reg) (upd : bool) (obs : s2d)     (* registerForDetector / updateInDetector published obs *)
 | CClear (obs : s2d)                               (* clearDetector / Cleanup published obs *)
 | CIngest (c : stcfg) (w : c2sw) (s : sel) (obs : list reg)   (* parseRegMessage returned obs *)
+| CNewReg (w : c2sw) (s : sel) (v6 : bool) (obs : option reg)  (* NewRegistrationC2SWrapper on the zero-filled message *)
 | CDetect (m : s2d) (conv : result serr session) (maps : list (list (bool * N)))
 | CLifetimes (unused active : N)                   (* RegisteredDecoys.timeoutUnused / timeoutActive, ns *)
 | CProto (t : transport) (p : N).                  (* Transport.GetProto() *)
@@ -84,6 +85,8 @@ Definition chk (c : case) : bool :=
   | CAnnounce r upd obs => s2d_eqb (announce r (if upd then OUpdate else ONew)) obs
   | CClear obs => s2d_eqb clear_msg obs
   | CIngest c w s obs => list_eqb reg_eqb (ingest c w s) obs
+  | CNewReg w s v6 obs =>
+      option_eqb reg_eqb (new_reg w s (match w_addr w with Some a => a | None => zeros16 end) v6) obs
   | CDetect m conv maps =>
       let mc := session_of m in
       conv_eqb mc conv &&
